@@ -591,6 +591,13 @@ pub fn scenario_with(seed: u64, g: u64, layout: &Layout) -> Scenario {
             pad.extend(all.iter().cloned());
             all = pad;
         }
+        // now and then a comment holds a control character (Ctrl-Z, form feed): bytes like any
+        // other inside a comment, in the file as in the pasted text
+        if tg.r.chance(1, 12) && !all.is_empty() {
+            let at = tg.r.usize(all.len());
+            let ch = ['\u{1a}', '\u{0c}', '\u{1a}'][tg.r.usize(3)];
+            all.insert(at, format!("; legacy tools left a control character here: {} (and text after it)", ch));
+        }
         let mut text = all.join(eol);
         if !tg.r.chance(1, 7) || all.is_empty() {
             text.push_str(eol);
@@ -1567,6 +1574,7 @@ pub fn worker(cfg: &WorkerCfg, emit: &mut dyn FnMut(Violation)) -> Stats {
         cx.stats.probe("empty_included_file", opened.iter().any(|e| sc.files.get(&e.1).map(|t| t.trim().is_empty()).unwrap_or(false)));
         cx.stats.probe("include_found_through_a_search_directory_spelled_via_a_directory_alias_and_dotdot", !sc.dirlinks.is_empty() && profile.iter().any(|e| e.call == Call::Open && e.ret >= 0 && e.path.contains("/L0/../")));
         cx.stats.probe("include_written_with_a_leading_tilde_directory_opened", sc.edges.iter().any(|e| e.1.contains("/~/") && opened_in(&profile, &e.1)));
+        cx.stats.probe("opened_file_with_a_control_character_in_a_comment", opened.iter().any(|e| sc.files.get(&e.1).map(|t| t.contains('\u{1a}') || t.contains('\u{0c}')).unwrap_or(false)));
         cx.stats.probe("included_file_whose_name_holds_a_backslash_opened", opened.iter().any(|e| basename(&e.1).contains('\\')));
         cx.stats.probe("chain_of_49_or_more_files_opened", opened.len() >= 49);
         cx.stats.probe("included_file_is_a_symbolic_link_and_includes_a_sibling", opened.iter().any(|e| sc.symlinks.contains_key(&e.1) && sc.files.get(&e.1).map(|t| t.lines().any(|l| parse_include(l).is_some())).unwrap_or(false)));
